@@ -294,6 +294,113 @@ def one(cases, lines, metas, rng, tier, ci):
     metas.append((cases[-1], box))
 
 
+def api_cases(rng, tier):
+    """histories of torchtt.grad.watch / unwatch followed by one grad.grad call: WHICH core's derivative sits in WHICH slot
+    (model: TTModel/GradApi.lean, theorems TT.C15c).  Partial watching, negative / repeated / unsorted index lists, positions outside the train."""
+    cases = []
+    n = 36 if tier == "quick" else 240
+    for ci in range(n):
+        d = rng.choice([2, 3, 3, 4])
+        ttm = (ci % 5 == 4)
+        N = rand_modes(rng, d, 1, 3, distinct=False)
+        M = rand_modes(rng, d, 1, 2, distinct=False) if ttm else None
+        x0 = rand_tt(rng, N, rand_ranks(rng, d, 2), tn.float64, M=M)
+        y0 = rand_tt(rng, N, rand_ranks(rng, d, 2), tn.float64, M=M)
+
+        def rnd_idx(k, allow_bad):
+            out = []
+            for _ in range(k):
+                i = rng.randrange(-d, d)
+                if allow_bad and rng.random() < 0.15:
+                    i = rng.choice([d, -d - 1, d + 1])
+                out.append(i)
+            return out
+        hist = []
+        fam = ci % 4
+        if fam == 0:       # proper, non-prefix subset, then grad without indices
+            sub = sorted(rng.sample(range(d), rng.randint(1, d - 1)))
+            if sub == list(range(len(sub))):
+                sub = [k + 1 for k in sub] if sub[-1] + 1 < d else [d - 1]
+            hist.append(("w", [k if rng.random() < 0.6 else k - d for k in sub]))
+            sel = None
+        elif fam == 1:     # subset watched, explicit list touching unwatched cores too
+            hist.append(("w", rnd_idx(rng.randint(1, d), False)))
+            sel = rnd_idx(rng.randint(1, d + 1), ci % 8 == 5)
+        elif fam == 2:     # watch all / unwatch / partial re-watch
+            hist.append(("wa", None))
+            if rng.random() < 0.7:
+                hist.append(("u", None))
+                hist.append(("w", rnd_idx(rng.randint(1, d - 1), False)))
+            sel = None if rng.random() < 0.5 else rnd_idx(rng.randint(1, d), False)
+        else:              # two partial watches accumulate
+            hist.append(("w", rnd_idx(1, False)))
+            hist.append(("w", rnd_idx(1, ci % 8 == 7)))
+            sel = None if rng.random() < 0.5 else list(range(d - 1, -1, -1))
+        toks = ["gradapi", d, len(hist)]
+        for o, idx in hist:
+            toks += [o] + ([len(idx)] + idx if idx is not None else [])
+        toks += ["all"] if sel is None else ["idx", len(sel)] + sel
+        line = J(*toks)
+        box = {}
+
+        def impl(x0=x0, y0=y0, hist=hist, sel=sel, box=box, ttm=ttm):
+            x = torchtt.TT([c.clone() for c in x0.cores]); y = torchtt.TT([c.clone() for c in y0.cores])
+            torchtt.grad.watch(y)              # the value always carries a graph, whatever is watched on x
+            try:
+                for o, idx in hist:
+                    if o == "wa":
+                        torchtt.grad.watch(x)
+                    elif o == "u":
+                        torchtt.grad.unwatch(x)
+                    else:
+                        torchtt.grad.watch(x, list(idx))
+            except IndexError:
+                return "gs err-watch"
+            box["flags"] = [bool(c.requires_grad) for c in x.cores]
+            val = ((x * y).sum() + 2 * (x * x).sum()) if not ttm else ((x * y).sum() + (x * x * y).sum())
+            try:
+                g = torchtt.grad.grad(val, x) if sel is None else torchtt.grad.grad(val, x, list(sel))
+            except IndexError:
+                return "gs err-grad"
+            box["g"] = g
+            def owner(t):
+                for k, c in enumerate(x.cores):
+                    if c.grad is t:
+                        return str(k)
+                return "?"
+            return "gs %d %s" % (len(g), " ".join("-" if t is None else owner(t) for t in g))
+
+        def oracle(x0=x0, y0=y0, sel=sel, box=box, ttm=ttm, d=d):
+            if "g" not in box:
+                return None        # IndexError on both sides is decided by the correspondence (model: err-watch / err-grad)
+            g, flags = box["g"], box["flags"]
+            want = list(range(d)) if sel is None else [i % d for i in sel]
+            if len(g) != len(want):
+                return "grad returned %d slots where %d are requested" % (len(g), len(want))
+            yd = dense_of_cores([c.clone() for c in y0.cores], ttm)
+            for slot, k in enumerate(want):
+                if not flags[k]:
+                    if g[slot] is not None:
+                        return "slot %d belongs to the unwatched core %d but is not None" % (slot, k)
+                    continue
+                if g[slot] is None:
+                    return "slot %d belongs to the watched core %d but is None" % (slot, k)
+                cs = [c.clone() for c in x0.cores]
+                cs[k].requires_grad_(True)
+                xd = dense_of_cores(cs, ttm)
+                v = ((xd * yd).sum() + 2 * (xd * xd).sum()) if not ttm else ((xd * yd).sum() + (xd * xd * yd).sum())
+                v.backward()
+                if list(g[slot].shape) != list(cs[k].shape):
+                    return "slot %d has shape %s, core %d has shape %s" % (slot, list(g[slot].shape), k, list(cs[k].shape))
+                e = exact_equal(g[slot], cs[k].grad)
+                if e:
+                    return "slot %d is not the derivative with respect to core %d: %s" % (slot, k, e)
+            box["checked"] = True
+            return None
+        cases.append(Case(line, impl, oracle, "gradapi/fam%d/d%d/%s" % (fam, d, "ttm" if ttm else "tt"), True, desc=line, gauge_ok=False))
+    return cases
+
+
 def run(res, rng, tier, known):
     from common import run_cases
     cases, lines, metas = [], [], []
@@ -303,6 +410,7 @@ def run(res, rng, tier, known):
     # run implementation + oracle
     impl_out = []
     run_cases(res, cases, known)
+    run_cases(res, api_cases(rng, tier), known)
     # model: dual numbers
     outs = run_driver(lines, main="MainAD.lean")
     nz = 0
